@@ -18,6 +18,13 @@ func checkPrefix(prop string, f *fx.Fixture, prefix []byte, full int) *Outcome {
 	if o := checkPrefixAt(prop, f, prefix, full, 0); o != nil {
 		return o
 	}
+	// short prefixes and a sample of the others are also opened as a file on disk (*os.File): error values and
+	// capabilities of the source differ from an in-memory reader
+	if len(prefix) < 12 || len(prefix)%53 == 0 || full-len(prefix) <= 9 {
+		if o := checkPrefixFile(prop, f, prefix, full); o != nil {
+			return o
+		}
+	}
 	// the same prefix handed over with the source positioned after the leading magic (a caller that sniffed "PAR1" first)
 	if len(prefix) >= 4 {
 		if o := checkPrefixAt(prop, f, prefix, full, 4); o != nil && o.Key != "exempt" {
@@ -26,6 +33,31 @@ func checkPrefix(prop string, f *fx.Fixture, prefix []byte, full int) *Outcome {
 		}
 	}
 	return nil
+}
+
+func checkPrefixFile(prop string, f *fx.Fixture, prefix []byte, full int) *Outcome {
+	return guard(prop, func() *Outcome {
+		tmp, err := os.CreateTemp("", "c11prefix*.parquet")
+		if err != nil {
+			return viol(prop+"/harness", "%v", err)
+		}
+		defer os.Remove(tmp.Name())
+		tmp.Write(prefix)
+		tmp.Close()
+		file, err := os.Open(tmp.Name())
+		if err != nil {
+			return viol(prop+"/harness", "%v", err)
+		}
+		defer file.Close()
+		recs, _, rd, err := readAll(f, file, 1<<20)
+		if err != nil || rd.Error() != nil {
+			return nil
+		}
+		if _, perr := pqref.ParseFile(prefix, pqref.Options{AllowGaps: true}); perr == nil {
+			return nil
+		}
+		return viol(prop+"/accepted", "[opened as *os.File] prefix of %d bytes (of %d) was accepted: no error from the constructor or Error(), %d rows delivered", len(prefix), full, len(recs))
+	})
 }
 
 func checkPrefixAt(prop string, f *fx.Fixture, prefix []byte, full int, startAt int64) *Outcome {
